@@ -58,7 +58,7 @@ impl ProgCase {
             withhold_imports: false,
             linked_promises: false,
             host_activity_pm: 0,
-            internal_sources: BTreeMap::new(), stale_answer_ids: Vec::new(),
+            internal_sources: BTreeMap::new(), stale_answer_ids: Vec::new(), stub_then_real: false,
         }
     }
     /// Structural shrink candidates: delete one statement node, or unwrap one block.
